@@ -406,6 +406,8 @@ pub fn dangerous(region: &str) -> Vec<(String, Vec<u8>)> {
     } else {
         v.push(("adr-ch3-only".into(), cmds::link_adr(15, 15, 0x0008, 0, 1, false).bytes));
         v.push(("adr-ch0-only".into(), cmds::link_adr(15, 15, 0x0001, 0, 1, false).bytes));
+        // (one usable channel, further mask bits on channels that are not defined)
+        v.push(("adr-ch0-and-undefined".into(), cmds::link_adr(15, 15, 0x00F1, 0, 1, false).bytes));
         v.push(("adr-all-on".into(), cmds::link_adr(15, 15, 0x0000, 6, 1, false).bytes));
         v.push(("adr-dr5-txp7".into(), cmds::link_adr(5, 7, 0xFFFF, 0, 1, false).bytes));
         v.push(("newch-create3".into(), vec![0x07, 3, mid[0], mid[1], mid[2], 0x50]));
